@@ -1,7 +1,7 @@
 """C17  Serialisation round-trips with the documented bit layout.
 
 Bounded-exhaustive: every type composition of the family in verif/gen/c17_types.py (nesting <=2 / width <=8
-quick, nesting <=3 / width <=10 thorough) x EVERY bit pattern / value:
+quick, nesting <=3 / width <=10 thorough; the complete family is seed independent) x EVERY bit pattern / value:
 
   py.*    Python level on constants
             from_bits[T](b): every leaf == the documented slice of b (reference: verif/ref/c17_layout.py),
@@ -16,16 +16,12 @@ quick, nesting <=3 / width <=10 thorough) x EVERY bit pattern / value:
 """
 from __future__ import annotations
 
-import json
-
 from ..core import Run, pmap, chunked
 from ..gen import c17_types as G
 from ..gen.c17_render import Renderer, ct_patterns_for
 from ..ref import c17_layout as L
 
 LEVEL = "exploration"
-
-MAX_BW_EVALS = 1 << 14
 
 
 def to_tuple(x):
@@ -540,12 +536,15 @@ def main(run: Run):
     evals = sum(c.get(k, 0) for k in ("py_evals", "rt_evals", "ct_evals", "bw_evals"))
     run.coverage_extra.update(
         exhaustive=not run.capped,
-        rule="every composition of the C17 family (gen/c17_types.family: all containers over the full atom alphabet at "
-             "nesting 1, all containers over reduced-alphabet inner types at nesting 2 (3 in thorough), width <= "
-             f"{10 if run.thorough else 8}) x every bit pattern and every constructed value at Python level, every input "
-             f"pattern of the compiled round-trip wrapper for qualifiers {list(qualifiers)}, constants folded in "
-             "context (all patterns for width<=3, else zero/ones/alternating/walking-one), bit field member writes "
-             "for every (vector, member value)",
+        rule="every composition of the C17 family (gen/c17_types.family: atoms; every container kind - cohdl.Array, "
+             "std.Array[.,2..3], std.Record with 2-3 fields incl. inherited (every split over 2-3 classes) and templated, "
+             "std.Enum/FlagEnum, S/UFixed, BitField incl. nested, Serialized - over the full atom alphabet at nesting 1 and "
+             "over reduced-alphabet inner types at nesting 2 (3 in thorough), total width <= "
+             f"{10 if run.thorough else 8}) x every bit pattern and every constructor-built value at Python level, every "
+             f"input pattern of the compiled round-trip wrapper for qualifiers {list(qualifiers)}"
+             + (" (temporary/ref/variable for width <= 7)" if run.thorough else "") +
+             ", constants folded in context (all patterns for width<=3, else the position-code patterns), bit field "
+             "member writes for every (vector, member value)",
         evaluations=evals,
         distinct_nontrivial=c.get("types_with_distinct_outcomes_rt", 0),
         qualifiers=list(qualifiers),
